@@ -294,6 +294,8 @@ def queries(tier):
         addseq(T, ty, 'n', [('with_namespace', 'g'), ('with_qualifier', H(1, 'a'), H(1, 'v')), ('with_qualifier', H(1, 'b'), H(1, 'w'))])
         addseq(T, ty, 'n', [('with_namespace', 'g'), ('with_qualifier', H(1, 'a'), 'v'), ('without_qualifier', H(1, 'b'))])
         addseq(T, ty, 'n', [('with_namespace', 'g'), ('with_qualifier', H(2, 'a'), 'v'), ('without_qualifiers',)])
+        # unsetting with a three-byte key (non-ASCII look-alikes of a stored one-letter key are invalid keys: nothing may be removed)
+        addseq(T, ty, 'n', [('with_namespace', 'g'), ('with_qualifier', 'k', 'v'), ('with_qualifier', 's', 'w'), ('without_qualifier', H(3, 'b'))])
         # edit-and-rebuild: a parsed PURL turned back into a builder, one field / qualifier changed
         for meth in SET:
             addseq(T, ty, 'n', [(meth, H(2 if deep else 1))], via='parsed')
